@@ -81,6 +81,21 @@ CHECKS["C16"] = dict(
     note="Trusted: Coq kernel + vm_compute; harness, scripted backend and its log front end. Axioms: none.",
     technique="Coq proof (splice/merge/sort/limit model of the pass-through pipeline) + in-Coq differential correspondence against real peers and scripted backends", design="6/C16")
 
+CHECKS["C14"] = dict(
+    text="PARTIAL. Theorems (Coq, any number of threads, any programs passing the static discipline check, any schedule of any length, by invariants): what a reader serialises under its read locks is the content the store had at the batch boundary at which it locked (never a half applied batch; for whole-row batches all columns of a serialised row carry one version); the wait-for graph of threads that lock in increasing table id order is acyclic (with writer preference); a data set built aside is invisible until its atomic publication; lockset discipline computed over a hand-written access table (shared field x function x locks) - refuted for the pinned code (dupStringList and six other fields, witness by vm_compute), holds after the fix: commits. The theorems are about the protocol model, NOT about Go. Stream c14race is EXPLORATION, not proof: generated scenarios of real Peers, update loop, rebuild swaps, peers going down/up and 4-8 clients over a real listener in a -race build with go-deadlock; torn rows by version stamps, race detector and deadlock reports parsed, crashes.",
+    note="PARTIAL: data races, Go memory model effects, scheduler dependent crashes and the question whether the code follows the modelled protocol are only explored (seeded scenarios of a few seconds, scheduling not controlled, replay best effort). The access table is hand-written and validated only as far as the scenarios execute the accesses concurrently. Trusted: Coq kernel + vm_compute, harness (scenario generator, stamp decoder, report parser), scripted backend, Go race detector (checkptr off because of third-party unsafe code), go-deadlock. Axioms: none.",
+    technique="Coq proof about the locking protocol model (invariants over interleavings) + race-detector / deadlock / version-stamp exploration of the real code",
+    design="6/C14")
+
+CHECKS["C02"] = dict(
+    text="Theorems (Coq, all reply row lists): the loaded store does not depend on the row order of the backend's replies (any sorter returning a sorted permutation, unique primary keys); every object is present exactly once and every cell a client reads is the documented coercion of the delivered value (= the delivered value for values in the column's range: explicit boolean predicate; nil, Icinga2's 0 for empty lists, int8 clamping spelled out); reference columns of services/comments/downtimes read the referenced object's columns, dangling references read the empty value; group member states; every host's/service's comment and downtime id lists are exactly the attached entries in table order; schema obligations re-proved over the generated schema. Stream c02init: scripted backend with rows in random order, MaxParallelPeerConnections 1/4, four flavours through the columns table, strings >512 bytes, control bytes and invalid UTF-8, equal/near-equal lists incl. a real xxhash32 collision found per run, numbers at the int8/int64 edges; real InitAllTables; full-column GET on every table compared with model and source rows.",
+    note="Trusted: Coq kernel + vm_compute; gen translator; harness incl. the wire wrapper recording requested/delivered bytes; zstd compression, djson decoding, stringdedup and xxhash are exercised by the stream only. Int64 beyond 2^53 is outside in_range (float64 JSON numbers). Axioms: none.",
+    technique="Coq proof (sort/insert/index/reference/id-list model, permutation invariance, faithfulness) + in-Coq differential correspondence against a real Peer and a scripted backend", design="6/C02")
+CHECKS["C19"] = dict(
+    text="Theorems (Coq): generated obligations re-proved on every run - the model's export rule equals the graph of Exporter.isExportColumn dumped from the code, and every observable column of every cached table is exported or recomputed on import (_lc, references, virtual columns, id lists); cell encoding round trip; for every well-formed store the import of the export has the same key/name/flags and answers every table x column list identically (hence every query). Stream c19snapshot: daemon A loaded from scripted backends of different flavours, real Exporter into a tarball, daemon B through the importer, identical generated queries to both.",
+    note="Trusted: Coq kernel + vm_compute; gen translator (Schema.v, Export.v); harness; tar/gzip. The link 'load produces a well-formed store' is evaluated per case by the stream, not proved. Axioms: none.",
+    technique="Coq proof (export/import round trip over the generated schema and export graph) + in-Coq differential correspondence exporter -> importer", design="6/C19")
+
 NOT_APPLICABLE = {}
 
 
